@@ -789,7 +789,9 @@ func (multi *MultiEpoch) processSlotTransactions(
 			}
 		}
 
-		if !gsfaReadersLoaded && len(filter.AccountInclude) > 0 { // Only needed if gsfaReaders not loaded, otherwise handled in the main branch; an empty list does not constrain
+		// Also needed when the address index produced the candidates: the index only keeps a short hash of
+		// each address, so an address without history can resolve to the list of another address.
+		if len(filter.AccountInclude) > 0 { // an empty list does not constrain
 			hasOne := false
 			for _, acc := range filter.AccountInclude {
 				pkey := solana.MustPublicKeyFromBase58(acc)
